@@ -274,13 +274,18 @@ func (r *Run) Finish() int {
 			fmt.Printf("KNOWN-FINDING: property=%s %s [%s, observed %d times]\n", r.ID, f.What, f.Key, r.knownHits[f.Key])
 		}
 	}
+	printed := map[string]bool{}
 	for _, v := range r.violations {
+		if printed[v.Key] {
+			continue // one line per distinct key; all records are in the replay files
+		}
+		printed[v.Key] = true
 		d, _ := json.Marshal(v.Detail)
 		ds := string(d)
 		if len(ds) > 600 {
 			ds = ds[:600] + "..."
 		}
-		fmt.Printf("VIOLATION property=%s replay=%s key=%s detail=%s\n", r.ID, v.Replay, v.Key, ds)
+		fmt.Printf("VIOLATION property=%s replay=%s key=%s count=%d detail=%s\n", r.ID, v.Replay, v.Key, r.violKeys[v.Key], ds)
 	}
 	fmt.Printf("SUMMARY property=%s tier=%s seed=%d verdict=%s evaluations=%d distinct_nontrivial=%d violations=%d known_hits=%d wall=%.1fs\n",
 		r.ID, r.Tier, r.Seed, verdict, r.evaluations, len(r.distinct), nviol, len(r.knownHits), wall)
